@@ -97,6 +97,33 @@ def worker(ctx):
                     return None
                 return digest_dir(os.path.join(cwd, outdir))
 
+            # a SIBLING schema that imports the same files under other names is compiled BEFORE this schema's first compilation in this
+            # process (every second case with imports): if anything about an imported file is remembered across compilations, the in-process
+            # reference below is already contaminated and the fresh CLI processes disagree with it
+            if root.imports and case_id % 2 == 0:
+                import posixpath
+                lines = [f"proto sibling_of_{root.proto_name}"]
+                for k2, imp in enumerate(root.imports):
+                    sp = imp.path_text or posixpath.relpath(imp.file.relpath, start=root.subdir or ".")
+                    lines.append(f'import "{sp}"' if imp.as_name else f'import other_name_{k2} "{sp}"')
+                lines.append("message SiblingOnly { bool a = 1 }")
+                sib = os.path.join(os.path.dirname(main), "sibling_schema.bitproto")
+                with open(sib, "w") as fh:
+                    fh.write("\n".join(lines) + "\n")
+                try:
+                    sp_ = sut_compiler.parse_file(sib)
+                    sdir = os.path.join(top, "sibling-out")
+                    for l2 in LANGS:
+                        os.makedirs(os.path.join(sdir, l2))
+                        sut_compiler.render_file(sp_, l2, os.path.join(sdir, l2))
+                    res.count("sibling_compilations")
+                except Exception as e:
+                    if type(e).__module__.startswith("bitproto"):
+                        res.count("sibling_schema_rejected")   # e.g. two imports binding one name: not this check's business
+                    else:
+                        raise
+                finally:
+                    os.unlink(sib)
             # reference: in-process compilation of the main file (first compilation of this schema in this process)
             ref_dig = {}
             try:
@@ -290,6 +317,6 @@ if __name__ == "__main__":
               "and compilations that fail inside a message/enum/string/import or at an illegal character); sha256 of every generated file compared; the "
               "cache-coherence monitor recomputes every memoised AST method on every call; non-trivial/distinct as in C01"),
         assumptions=["the generated files are the only observable output that matters (stderr lint text is not compared)"],
-        required_counters=["variants_compared", "cli_compilations", "decoy_cwd_variants", "stale_outdir_variants", "filter_list_variants", "after_residue_variants", "residue_compilations_succeeded",
+        required_counters=["variants_compared", "cli_compilations", "decoy_cwd_variants", "stale_outdir_variants", "filter_list_variants", "sibling_compilations", "after_residue_variants", "residue_compilations_succeeded",
                            "residue_compilations_failed_as_intended"],
     )
